@@ -20,7 +20,8 @@ META = {
         "outside change of the target's demand / fitness change) over Standardisers built from "
         "random accepted parameter combinations (infinite, integer, half and dyadic-fraction "
         "limits; integer and dyadic granularities); numbers are dyadic rationals so float "
-        "arithmetic is exact and the rational reference is decisive. A case is non-trivial "
+        "arithmetic is exact and the rational reference is decisive. kind=fractional: granularities that are not dyadic (0.1, 0.3, 1/3, ...), judged by relational clauses only "
+        "(never rounded up, at most a granule below, a multiple of the granularity, read-back is the written or the forwarded value). A case is non-trivial "
         "when at least one limit or a granularity != 1 is configured; distinct by content."
     ),
     "assumptions": [
@@ -35,9 +36,9 @@ META = {
 def plan(tier, seed):
     if tier == "thorough":
         return core.shards(seed, 160000, 16) + [
-            dict(seed=seed, shard="ctor", n=20000, kind="ctor")
+            dict(seed=seed, shard="ctor", n=20000, kind="ctor"), dict(seed=seed, shard="fractional", n=40000, kind="fractional")
         ]
-    return core.shards(seed, 6000, 8) + [dict(seed=seed, shard="ctor", n=1500, kind="ctor")]
+    return core.shards(seed, 6000, 8) + [dict(seed=seed, shard="ctor", n=1500, kind="ctor"), dict(seed=seed, shard="fractional", n=2000, kind="fractional")]
 
 
 # ----------------------------------------------------------------------------- generators
@@ -313,6 +314,52 @@ def execute(case, result):
     return problems
 
 
+def gen_fractional(rnd, spec):
+    """Granularities that are not dyadic (0.1, 0.3, ...): float flooring is inexact, so only relational clauses are judged."""
+    g = rnd.choice([0.1, 0.3, 0.7, 0.001, 0.025, 3.3, 1e-6, 123.456, 1 / 3])
+    writes = []
+    for _ in range(rnd.randint(1, 12)):
+        k = rnd.random()
+        if k < 0.4:
+            writes.append(round(rnd.uniform(-50, 500), rnd.choice([0, 1, 2, 5])))
+        elif k < 0.7:
+            writes.append(rnd.randint(-20, 1000))
+        else:
+            writes.append(rnd.randint(-50, 5000) * g)  # (almost) exact multiples
+    return {"granularity": g, "writes": writes, "supply": rnd.choice([0, 10, 100.5])}
+
+
+def exec_fractional(case, result):
+    import math
+    from cobald.decorator.standardiser import Standardiser
+
+    g = case["granularity"]
+    pool = RecPool(demand=0, supply=case["supply"])
+    std = Standardiser(pool, granularity=g)
+    problems = []
+    for idx, v in enumerate(case["writes"]):
+        try:
+            std.demand = v
+            back = std.demand
+        except Exception as err:
+            problems.append(("write %d of %r with granularity %r raised %r" % (idx, v, g, err), None))
+            continue
+        t = pool.peek()["demand"]
+        slack = 8 * math.ulp(max(abs(v), abs(t), g))
+        result.count("fractional_granularity_writes")
+        if t > v + slack:
+            problems.append(("granularity %r: %r was rounded UP to %r" % (g, v, t), None))
+        elif v - t > g + slack:
+            # (a value that is a multiple of g in the reals may lie a hair below the float multiple and lose a whole
+            # granule to float floor division - a property of binary floats, not judged)
+            problems.append(("granularity %r: %r was forwarded as %r, more than a granule below" % (g, v, t), None))
+        elif abs(t / g - round(t / g)) > 1e-6 * max(1.0, abs(t / g)):
+            problems.append(("granularity %r: forwarded %r is not a multiple of the granularity" % (g, t), None))
+        if back != v and back != t:
+            problems.append(("granularity %r: read-back %r after writing %r (target has %r) although no limit is set" % (g, back, v, t), None))
+    return problems
+
+
 def gen_ctor(rnd, spec):
     vals = [-INF, INF, 0, 1, -1, 0.5, -0.5, 2, 10, 10.5, -3, 0.0, 1e-9, -1e-9, 7]
     return {k: num(rnd.choice(vals)) for k in ("minimum", "maximum", "granularity", "surplus", "backlog") if rnd.random() < 0.7}
@@ -350,6 +397,8 @@ def run_shard(spec):
     try:
         if spec.get("kind") == "ctor":
             core.drive(PID, spec, gen_ctor, execute_ctor, result)
+        elif spec.get("kind") == "fractional":
+            core.drive(PID, spec, gen_fractional, exec_fractional, result)
         else:
             core.drive(PID, spec, gen_case, execute, result, nontrivial=nontrivial)
     finally:
@@ -359,6 +408,6 @@ def run_shard(spec):
 
 
 def finish(total, tier):
-    for needed in ("writes_limited", "writes_unlimited", "writes_floored", "increment_runs_checked", "ctor_rejected", "ctor_accepted"):
+    for needed in ("writes_limited", "writes_unlimited", "writes_floored", "increment_runs_checked", "ctor_rejected", "ctor_accepted", "fractional_granularity_writes"):
         if not total.counters.get(needed) and not total.violations:
             total.inconc("monitor never observed: " + needed)
